@@ -19,13 +19,40 @@ go test -short ./core/ ./util/dnum/ with the mutant):
   M4 suobject.go    deepCompare: shorter list greater                                   core tests fail, VIOLATION
   M5 sustr.go       SuStr.Equal(SuConcat) compares lengths only                         core tests fail, VIOLATION
   M9 sutimestamp.go SuTimestamp.Equal(SuDate) true for the same date                    core tests fail, VIOLATION
+
+Round 2 (seeded/C28-lazy-record-hash2-r2, missed at first): lazily materialised representations.
+The universe had no record that is still backed by its database row (core.SuRecordFromRow: query /
+cursor / trigger results) and every instance was hashed once, so a hash that depends on how much of
+a value has been materialised could not show.  Added:
+  spec/ValuesLazy.tla (+ mc/MC_ValuesLazy.tla, ValuesLazy_quick.cfg, ValuesLazy_dev_partial.cfg):
+       lazy record = row + members cached so far + userow; symbolic Hash / Hash2 as suobject.go
+       computes them; TLC exhausts all interleavings of field reads, unpack, hash, store under the
+       compound key Object(rec, "a") and look-up: the value never changes, Hash2 is the one of the
+       equal in-memory value in every state, the member is found by the same and by an equal key.
+       Deviation Partial = TRUE (Hash2 looks at the materialised part only) violates Hash2OK.
+  driver: representations SuRecordFromRow (one stored record, reversed columns, joined rows, one
+       field already read) of every abstract object that can be a row, nested as 1st / 2nd / 3rd
+       list member, named value and named key of containers (each container gets its OWN brand new
+       lazy members; values are packed from separate copies so that building the universe reads
+       nothing), all in the all-pairs matrix (hash taken before anything else touches the instance);
+       plus "lazy episodes" (LzNew / Lz events): brand new copies of every lazy instance (records,
+       sequences, containers of them) go through scripted and random sequences of read-only steps -
+       get / has a field, display, hash, eq, cmp, put as a member key, look up by equal / other
+       keys and by the very same key.
+  TraceValues.tla: TrLzNew / TrLz replay the steps on the ValuesLazy model (LazyGet / LazyUnpack /
+       LazyHash2; invariant LzAbsStable) and require every hash to be the hash of the equal shared
+       instance, eq / cmp to agree with Eq / Cmp, the member to be found exactly by equal keys and
+       always by the same key.  Anti-vacuity: a flipped hash bit / look0 answer is rejected at its line.
+  Mutants (scratch worktree, quick, seed 1):
+  M10 surecord.go   Hash2 without unpacking (the seeded change)                          tests green   VIOLATION (Row: equal values, different hashes)
+  M11 surecord.go   Hash2 without unpacking only once a field has been cached            tests green   VIOLATION (episode get, hash)
 """
 
 import json, os, re
 
 META = {
  "engine": "tla-values",
- "text": "TLC exhausts Values.tla's reference order Cmp and equality Eq on a generated universe (68 / ~160 abstract values: every pair and triple) for totality, antisymmetry, transitivity, the type ranks boolean<number<string<date<object and Eq => Cmp = 0; then every abstract value of a larger universe is instantiated in every representation constructible in core (SuInt/SuInt64/SuDnum, SuStr/SuConcat/SuExcept, SuDate/SuTimestamp, SuObject/SuRecord/SuSequence, unpacked, copied, read-only, concurrent, nested) and for ALL ordered pairs the real Compare, OpLt..OpGte, Equal/OpIs, Hash and SuObject/SuRecord member lookup are validated by TLC against Cmp/Eq (TraceValues.tla)",
+ "text": "TLC exhausts Values.tla's reference order Cmp and equality Eq on a generated universe (68 / ~160 abstract values: every pair and triple) for totality, antisymmetry, transitivity, the type ranks boolean<number<string<date<object and Eq => Cmp = 0; TLC also exhausts ValuesLazy.tla (a record still backed by its database row: all interleavings of field reads, unpacking, hashing, storing and looking up a member under a key containing it keep the value and the hash); then every abstract value of a larger universe is instantiated in every representation constructible in core (SuInt/SuInt64/SuDnum, SuStr/SuConcat/SuExcept, SuDate/SuTimestamp, SuObject/SuRecord/SuSequence/row-backed lazy SuRecord, unpacked, copied, read-only, concurrent, nested) and for ALL ordered pairs the real Compare, OpLt..OpGte, Equal/OpIs, Hash and SuObject/SuRecord member lookup are validated by TLC against Cmp/Eq (TraceValues.tla); brand new copies of every lazily materialised instance are additionally taken through sequences of read-only steps (field reads, display, hash, compare, store/look up as a member key) and every answer must be the one of the value, whatever has been materialised",
  "note": "trusts TLC, the harness' naming of a concrete value's abstract value (aval: decimal string -> sign/exponent/digits, bytes, date parts, member lists), and that 3 x 21 bits are the whole 64-bit hash; transitivity of the real Compare follows from agreement with the verified reference order on the instantiated values only",
  "technique": "TLA+ model checking (TLC) of the reference order + trace validation of all-pairs observations of the real code",
 }
@@ -55,6 +82,11 @@ def run(ctx):
         ctx.tlc_mc("MC_Values.tla", "Values_thorough.cfg", workers=2, timeout=3000)
     # anti-vacuity: a reference order that is not antisymmetric is caught by the same invariants
     ctx.tlc_mc("MC_Values.tla", "Values_dev_asym.cfg", workers=2, timeout=1200, expect_violation="AntiSym", count=False)
+    # lazily materialised records (ValuesLazy.tla): every interleaving of field reads / unpack /
+    # hash / store-and-look-up keeps the value and gives the hash of the equal in-memory value;
+    # the deviation "Hash2 looks at the materialised part only" is caught
+    ctx.tlc_mc("MC_ValuesLazy.tla", "ValuesLazy_quick.cfg", workers=2, timeout=1200)
+    ctx.tlc_mc("MC_ValuesLazy.tla", "ValuesLazy_dev_partial.cfg", workers=1, timeout=1200, expect_violation="Hash2OK", count=False)
 
     # 2. conformance: all pairs of all representations, real code
     drv = ctx.go_build("values")
@@ -66,6 +98,9 @@ def run(ctx):
     ctx.cov["instances"] = summ.get("instances", 0)
     ctx.cov["pairs_observed"] = summ.get("pairs", 0)
     ctx.cov["exceptions_during_compare"] = summ.get("exceptions", 0)
+    ctx.cov["lazy_instances"] = summ.get("lazy_instances", 0)
+    ctx.cov["lazy_episodes"] = summ.get("lazy_episodes", 0)
+    ctx.cov["lazy_steps_observed"] = summ.get("lazy_steps", 0)
 
     env = {}
     res = ctx.tlc_trace("TraceValues.tla", "TraceValues.cfg", trace, timeout=3000, extra_env=env)
@@ -101,6 +136,16 @@ def run(ctx):
                        describe(json.loads(pl[pair["a"] - 1]), json.loads(pl[pair["b"] - 1]), pair)
                 ctx.report_rejection(pin, res3, what=what)
                 return
+        if bad.get("e") == "Lz":
+            of = json.loads(lines[bad["of"] - 1])
+            ep = ln
+            while ep > 0 and not lines[ep - 1].startswith('{"e":"LzNew"'):
+                ep -= 1
+            what = "a brand new copy of %s %s %s answers differently from its value after the read-only steps %s: %s" % (
+                of.get("gotype"), of.get("rep"), json.dumps(of.get("a"))[:160],
+                [json.loads(x)["op"] for x in lines[ep:ln - 1]], json.dumps(bad)[:200])
+            ctx.report_rejection(trace, res, what=what)
+            return
         ctx.report_rejection(trace, res)
         return
 
@@ -108,6 +153,7 @@ def run(ctx):
     # (a small prefix of the scenario is enough: the first K instances and the first Row cut to K)
     lines = open(trace).read().splitlines()
     nval = sum(1 for l in lines if l.startswith('{"e":"Val"'))
+    nval_all = nval
     K = min(40, nval)
     row = json.loads(lines[nval])
     for f in ("cmp", "ops", "eq", "is", "found", "rfound", "has"):
@@ -121,6 +167,27 @@ def run(ctx):
     if resc["accepted"] or resc.get("line") != nval + 1:
         raise Infra("anti-vacuity: corrupted Row was not rejected at line %d: %s" % (nval + 1, resc))
     ctx.cov["corrupted_trace_rejected_at_line"] = resc["line"]
+    # same for the lazy episodes: one recorded hash changed / one lookup answer flipped
+    lzl = [i for i, x in enumerate(lines) if x.startswith('{"e":"Lz",') and '"op":"hash"' in x]
+    lkl = [i for i, x in enumerate(lines) if x.startswith('{"e":"Lz",') and '"op":"look0"' in x]
+    if not lzl or not lkl:
+        raise Infra("no lazy episodes recorded")
+    for tag, i in (("hash", lzl[len(lzl) // 2]), ("look0", lkl[len(lkl) // 2])):
+        ev = json.loads(lines[i])
+        if tag == "hash":
+            ev["h"][2] ^= 1
+        else:
+            ev["r"] = 1 - ev["r"]
+        # the Val events, then the episode up to the corrupted step (Rows / Maps are not needed)
+        first = max(j for j, x in enumerate(lines[:i]) if x.startswith('{"e":"LzNew"'))
+        badl = os.path.join(ctx.work, "values-corrupt-%s.ndjson" % tag)
+        with open(badl, "w") as f:
+            f.write("\n".join(lines[:nval_all] + lines[first:i] + [json.dumps(ev, separators=(",", ":"))]) + "\n")
+        want = nval_all + (i - first) + 1
+        resl = ctx.tlc_trace("TraceValues.tla", "TraceValues.cfg", badl, timeout=1200, extra_env=env)
+        if resl["accepted"] or resl.get("line") != want:
+            raise Infra("anti-vacuity: corrupted lazy step (%s) was not rejected at line %d: %s" % (tag, want, resl))
+        ctx.cov["corrupted_lazy_%s_rejected_at_line" % tag] = resl["line"]
     ctx.assumptions += [
         "abstract value of a concrete instance is named by the harness from its construction recipe (harness/aval)",
         "Hash compared as three 21-bit chunks of the real 64-bit hash",
